@@ -613,6 +613,14 @@ fn run_faulted(c: &SdCase, acc: &mut Acc, monitor: bool) -> Result<(), Failure> 
                 && i == first_device_call(c)
                 && r.is_err()
                 && matches!(f, Fault::DeadFrom { .. } | Fault::SpiError { .. } | Fault::WrongCmd8Echo { .. });
+            // faults that only damage data or refuse a block leave the card a well-behaved SPI peer:
+            // under the monitor it keeps running as it is, and everything the driver sends - in the
+            // faulted call and after it - is judged ("calls after errors")
+            let data_level = matches!(f, Fault::FlipBit { .. } | Fault::Burst { .. } | Fault::WrongToken { .. } | Fault::RejectWrite { .. } | Fault::WriteStatus { .. });
+            if monitor && data_level {
+                acc.class("c14-after-fault:card-kept-running-after-data-level-fault");
+                continue;
+            }
             card.power_cycle();
             // what the driver sent while the card misbehaved is not judged
             card.0.borrow_mut().viol.truncate(viol_before);
@@ -734,8 +742,10 @@ pub fn timing_strategy(near_budget: bool) -> BoxedStrategy<Timing> {
         prop_oneof![4 => Just(0u8), 1 => (1u8..3)],
         prop_oneof![3 => Just(0u8), 1 => Just(0x20u8), 1 => Just(0x01u8), 1 => Just(0x08u8), 1 => Just(0x29u8)],
         prop::bool::weighted(0.15),
+        // busy after the stop token of a multi-block write: as after any other data block
+        (prop_oneof![6 => (0u16..60), 2 => Just(0u16), 2 => (10_001u16..49_000)], any::<bool>()),
     )
-        .prop_map(|(ncr, token_delay, busy_write, busy_stop, init_polls, cmd0_ignored, ocr_extra, sluggish)| Timing {
+        .prop_map(|(ncr, token_delay, busy_write, busy_stop, init_polls, cmd0_ignored, ocr_extra, sluggish, (busy_stop_write, stop_gap))| Timing {
             ncr,
             token_delay,
             busy_write,
@@ -745,6 +755,8 @@ pub fn timing_strategy(near_budget: bool) -> BoxedStrategy<Timing> {
             cmd0_ignored: if sluggish { cmd0_ignored + 3 } else { cmd0_ignored },
             ocr_extra,
             sluggish,
+            busy_stop_write,
+            stop_gap,
         })
         .boxed()
 }
@@ -815,7 +827,7 @@ pub fn enumerate_bit_flips(acc: &mut Acc, test: &dyn Fn(&SdCase, &mut Acc) -> Re
                 use_crc: true,
                 acquire_retries: 2,
                 cap: cap.clone(),
-                timing: Timing { ncr: (bit % 9) as u8, token_delay: bit % 5, busy_write: 3, busy_stop: 2, init_polls: 1, cmd0_ignored: 0, ocr_extra: 0, sluggish: false },
+                timing: Timing { ncr: (bit % 9) as u8, token_delay: bit % 5, busy_write: 3, busy_stop: 2, init_polls: 1, cmd0_ignored: 0, ocr_extra: 0, sluggish: false, busy_stop_write: 0, stop_gap: false },
                 bg_seed: 77 + bit as u32,
                 calls: vec![SdCall::Write { block: BlockSel::Exact(5), n: 1, seed: bit as u32 }, SdCall::Read { block: BlockSel::Exact(5), n: 1 }, SdCall::Read { block: BlockSel::Exact(5), n: 1 }],
                 faults: vec![Fault::FlipBit { nth_read: 0, bit }],
@@ -838,7 +850,7 @@ pub fn enumerate_bit_flips(acc: &mut Acc, test: &dyn Fn(&SdCase, &mut Acc) -> Re
                         use_crc: false,
                         acquire_retries: 2,
                         cap: cap.clone(),
-                        timing: Timing { ncr: 1, token_delay: 1, busy_write: 0, busy_stop: 0, init_polls: 0, cmd0_ignored: 0, ocr_extra: 0, sluggish: false },
+                        timing: Timing { ncr: 1, token_delay: 1, busy_write: 0, busy_stop: 0, init_polls: 0, cmd0_ignored: 0, ocr_extra: 0, sluggish: false, busy_stop_write: 0, stop_gap: false },
                         bg_seed: 3,
                         calls: vec![call, SdCall::Read { block: BlockSel::Zero, n: 1 }],
                         faults: vec![Fault::FlipBit { nth_read: 0, bit }],
